@@ -2,6 +2,7 @@ package main
 
 import (
 	"fmt"
+	"sync"
 	"go/token"
 	"go/types"
 	"sort"
@@ -294,10 +295,13 @@ func (ex *Exec) typeAssert(st *State, iv *IfaceV, x *ssa.TypeAssert) (Val, strin
 
 var constGlobalCache = map[*ssa.Global]Val{}
 var constGlobalDone = map[*ssa.Global]bool{}
+var cacheMu sync.Mutex
 
 // constGlobal returns the value of a package-level map/slice that is initialised by a composite
 // literal of constants in the package initialiser and never written elsewhere (who-writes check).
 func (ex *Exec) constGlobal(g *ssa.Global) Val {
+	cacheMu.Lock()
+	defer cacheMu.Unlock()
 	if constGlobalDone[g] {
 		return constGlobalCache[g]
 	}
@@ -738,6 +742,12 @@ var sentinelCache = map[*ssa.Global]int{}
 // sentinelErr: package-level error variable stored exactly once, in the package initialiser,
 // from errors.New / fmt.Errorf (hence never nil and never reassigned).
 func (ex *Exec) sentinelErr(g *ssa.Global) bool {
+	cacheMu.Lock()
+	defer cacheMu.Unlock()
+	return ex.sentinelErr0(g)
+}
+
+func (ex *Exec) sentinelErr0(g *ssa.Global) bool {
 	if v, ok := sentinelCache[g]; ok {
 		return v == 1
 	}
@@ -761,7 +771,7 @@ func (ex *Exec) sentinelErr(g *ssa.Global) bool {
 				if !ok || !nonNilCtors[calleeQual(call)] {
 					// may be a copy of another sentinel
 					if l, ok := st.Val.(*ssa.UnOp); ok {
-						if g2, ok := l.X.(*ssa.Global); ok && g2 != g && ex.sentinelErr(g2) {
+						if g2, ok := l.X.(*ssa.Global); ok && g2 != g && ex.sentinelErr0(g2) {
 							continue
 						}
 					}
